@@ -139,12 +139,52 @@ Definition run_parsed (a : sx) : sx :=
   | _ => sx_err "parsed"
   end.
 
+(** cells built from a BitString that some BitString-producing API returned:
+    (src skip n api) -> the row of the ordinary cell without references whose
+    data are the LOGICAL bits the API returns.  api 2, 3, 8 return the rest after
+    [skip]; api 7 reads [n] bits and appends the rest; api 5 the whole source; the
+    others [n] bits after [skip]. *)
+Definition frombits_logical (src : bits) (skip n : nat) (api : N) : option bits :=
+  if N.eqb api 5 then Some src
+  else if short skip src then None
+  else
+    let rest := skipn skip src in
+    if N.eqb api 2 || N.eqb api 3 || N.eqb api 8 then Some rest
+    else if short n rest then None
+    else if N.eqb api 7 then Some rest else Some (firstn n rest).
+
+Definition run_frombits (a : sx) : sx :=
+  match a with
+  | SL [SBits src; SN skip; SN n; SN api] =>
+      if (2000 <? skip)%N || (2000 <? n)%N then sx_err "frombits" else
+      match frombits_logical src (N.to_nat skip) (N.to_nat n) api with
+      | Some b =>
+          match eval_dag sha256 0 [mknode false 0 0 b []] with
+          | ri :: _ => SL [level_info ri 0; level_info ri 1; level_info ri 2; level_info ri 3; sx_nat 0]
+          | [] => sx_err "frombits"
+          end
+      | None => SA "err"
+      end
+  | _ => sx_err "frombits"
+  end.
+
+(* c02.json: (dag root receiver-dag receiver-root mode) -> the c02.hashes row of
+   (dag root): decoding the JSON form of a cell yields that cell, whatever the
+   receiver held *)
+Definition run_json (a : sx) : sx :=
+  match a with
+  | SL (dag :: root :: _) => run_hashes (SL [dag; root])
+  | _ => sx_err "json"
+  end.
+
 (* dispatcher of this file's kinds (private extraction; Dispatch.v has the same lines) *)
 Definition run (kind : string) (a : sx) : sx :=
   if String.eqb kind "c02.history" then run_history a
   else if String.eqb kind "c02.built" then run_built a
   else if String.eqb kind "c02.builtkey" then run_built_key a
   else if String.eqb kind "c02.parsed" then run_parsed a
+  else if String.eqb kind "c02.frombits" then run_frombits a
+  else if String.eqb kind "c02.json" then run_json a
   else if String.eqb kind "c02.hashes" then H07.run_hashes a
   else if String.eqb kind "c07.parse" then H07.run_parse a
   else sx_err "kind".
